@@ -69,7 +69,8 @@ PROPS = {
         "props_file": "Props/C13.v",
         "run_module": "Model.Codec Model.RunC13",
         "run_fn": "run_c13",
-        "pinned_theorems": ["C13_roundtrip", "C13_roundtrip_exact", "C13_enc_injective", "C13_v1_upgrade_keys",
+        "pinned_theorems": ["C13_roundtrip", "C13_roundtrip_exact", "C13_roundtrip_unordered", "C13_enc_injective",
+                            "C13_enc_injective_unordered", "C13_v1_upgrade_keys",
                             "C13_v1_upgrade", "C13_v1_upgrade_general", "C13_v1_no_pragma", "C13_v1_module",
                             "C13_v1_untouched", "C13_roundtrip_holdsb_correct", "C13_v1_holdsb_correct",
                             "C13_v1_model_holds"],
@@ -79,7 +80,7 @@ PROPS = {
                  "subsets of non-empty ModuleInfo fields); the ModuleInfo of every module source embedded in "
                  "/repo/tests/specs/**/*.txt analysed by the real ParserModuleAnalyzer; every moduleGraph1/2 entry "
                  "of the corpus manifests; 138 hand-written decoder corner cases; then generated cases (quick 16k, "
-                 "thorough 500k; 40% random ModuleInfo values with every field independently empty/non-empty and "
+                 "thorough 200k; 40% random ModuleInfo values with every field independently empty/non-empty and "
                  "strings incl. empty, quotes, NUL, non-BMP; 30% structurally mutated or random JSON through the "
                  "decoder; 20% moduleGraph1 entries with generated leadingComments incl. quote-less, case-folded, "
                  "non-ASCII and malformed ones; 10% moduleGraph2/1 selection in JsrPackageVersionInfo::module_info). "
